@@ -12,7 +12,7 @@
 (*   "outcome":O,"hit":i}   hit = position of the returned element         *)
 (* O \in {"value","error","panic","nil"}.                                  *)
 (***************************************************************************)
-EXTENDS VariantOps, Json, TLC
+EXTENDS VariantOps, Json, TLC, Held
 VARIABLE l
 Trace == ndJsonDeserialize("trace.ndjson")
 F(ok, name) == IF ok THEN "" ELSE name \o "; "
@@ -126,7 +126,7 @@ Init == l = 1
 Next ==
   /\ l <= Len(Trace)
   /\ l' = l + 1
-  /\ LET f == Fails(Trace[l]) IN f = "" \/ PrintT("VERIF-FAIL " \o ToString(l) \o " " \o f)
+  /\ LET f == Fails(Trace[l]) IN Report(l, f, Trace[l])
 Spec == Init /\ [][Next]_l
 Accepted == TLCGet("stats").diameter - 1 = Len(Trace)
 =============================================================================
